@@ -18,6 +18,7 @@ import (
 
 	"kvassverif/core"
 	"kvassverif/cycle"
+	"kvassverif/sidecarsim"
 
 	"tkestack.io/kvass/pkg/shard"
 	"tkestack.io/kvass/pkg/sidecar"
@@ -334,6 +335,70 @@ func c09Run(tp *core.Tape, e *core.Env) {
 			return
 		}
 		e.Probe("clean_restart_checked")
+	}
+	// the whole command: `kvass sidecar` (its real start path) started over the store a previous
+	// process left serves exactly that assignment through its API, and again after B
+	{
+		d := filepath.Join(base, "command")
+		copyDir(tmpl, filepath.Join(d, "store"))
+		want := func(as map[string][]*target.Target) string {
+			var out []string
+			for _, ts := range as {
+				for _, t := range ts {
+					out = append(out, fmt.Sprintf("%d:%s", t.Hash, t.TargetState))
+				}
+			}
+			sort.Strings(out)
+			return strings.Join(out, ",")
+		}
+		served := func(sc *sidecarsim.Sidecar) (string, error) {
+			st, err := sc.GetStatus()
+			if err != nil {
+				return "", err
+			}
+			var out []string
+			for h, x := range st {
+				out = append(out, fmt.Sprintf("%d:%s", h, x.TargetState))
+			}
+			sort.Strings(out)
+			return strings.Join(out, ","), nil
+		}
+		fileMode := tp.Bool("command_file_mode", 1, 2)
+		opt := sidecarsim.Options{Dir: d}
+		if fileMode {
+			opt.ConfigFile = filepath.Join(d, "prometheus.env.yaml")
+			_ = os.WriteFile(opt.ConfigFile, []byte(NodeConfig), 0o644)
+		}
+		sc := sidecarsim.Start(opt)
+		defer func() { sc.Stop() }()
+		if sc.LoadErr != nil {
+			e.Violate("start-fails", "fault=none,level=command", "the sidecar command does not start over the store of acknowledged A: %v", sc.LoadErr)
+			return
+		}
+		if got, err := served(sc); err != nil || got != want(A) {
+			e.Violate("clean-restart", "after=A,level=command", "sidecar command started after acknowledged A: err=%v\n serves %s\n   want %s", err, clip(got), clip(want(A)))
+			return
+		}
+		if !fileMode {
+			if err := sc.PushConfig(NodeConfig); err != nil {
+				e.Undecided("command level: config push failed: %v", err)
+				return
+			}
+		}
+		if err := sc.PostTargets(&shard.UpdateTargetsRequest{Targets: B}); err != nil {
+			e.Undecided("command level: fault-free update B failed: %v", err)
+			return
+		}
+		sc = sc.Restart()
+		if sc.LoadErr != nil {
+			e.Violate("start-fails", "fault=none,level=command", "the sidecar command does not start over the store of acknowledged B: %v", sc.LoadErr)
+			return
+		}
+		if got, err := served(sc); err != nil || got != want(B) {
+			e.Violate("clean-restart", "after=B,level=command", "sidecar command restarted after acknowledged B: err=%v\n serves %s\n   want %s", err, clip(got), clip(want(B)))
+			return
+		}
+		e.Probe("command_restart_checked")
 	}
 	e.Key("A="+kindNames[ka], "B="+kindNames[kb], fmt.Sprintf("old=%v", oldFormat))
 
